@@ -16,7 +16,7 @@ def main():
     rc, out = sh("git apply %s/patch.diff" % os.path.abspath(d), wt)
     res["applies"] = rc == 0
     shutil.copy(os.path.join(d, "demo.rs"), os.path.join(wt, "tests", name + ".rs"))
-    rc, out = sh("cargo test --offline --test %s 2>&1 | tail -30" % name, wt)
+    rc, out = sh("cargo test --offline %s --test %s 2>&1 | tail -30" % (os.environ.get("FEATURES", ""), name), wt)
     res["demo_fails_with"] = ("test result: FAILED" in out) or ("panicked" in out and "test result: ok" not in out)
     res["demo_with_tail"] = out[-600:]
     os.remove(os.path.join(wt, "tests", name + ".rs"))
@@ -25,7 +25,7 @@ def main():
     res["suite_tail"] = out[-400:]
     sh("git checkout -- .", wt)
     shutil.copy(os.path.join(d, "demo.rs"), os.path.join(wt, "tests", name + ".rs"))
-    rc, out = sh("cargo test --offline --test %s 2>&1 | tail -8" % name, wt)
+    rc, out = sh("cargo test --offline %s --test %s 2>&1 | tail -8" % (os.environ.get("FEATURES", ""), name), wt)
     res["demo_passes_without"] = "test result: ok" in out and "FAILED" not in out
     os.remove(os.path.join(wt, "tests", name + ".rs"))
     sh("git checkout -- . && git clean -fdq tests", wt)
